@@ -165,7 +165,7 @@ def spec_trace_weak(row):
         probs += only_colour_moves(row, out, {1: WEAK_MARK})
         post = out.post["objs"][1]
         if row.pre["colour"] == "W" and post["colour"] != "WW":
-            probs.append("a White object reached by a traced weak pointer is not marked WhiteWeak (its block "
+            probs.append("[weak] a White object reached by a traced weak pointer is not marked WhiteWeak (its block "
                          "would be freed while the weak pointer is still reachable)")
         if out.post["gray"] != row.init["gray"] or out.post["gray_again"] != row.init["gray_again"]:
             probs.append("weak tracing queued an object")
@@ -252,7 +252,7 @@ def spec_backward_barrier(row, weak=False):
             c_post = _post_colour(out, 2)
             bad = ("W",) if weak else WHITE
             if p_post == "B" and c_post in bad:
-                probs.append("parent stays Black while the adopted child is %s" % c_post)
+                probs.append("%sparent stays Black while the adopted child is %s" % ("[weak] " if weak else "", c_post))
     return probs
 
 
@@ -274,7 +274,7 @@ def spec_forward_barrier(row, weak=False):
         needs = pre["parent"] in ("None", "B") or (pre["parent"] == "alias" and pre["C"] == "B")
         if needs:
             if weak and c_post == "W":
-                probs.append("child still White after a weak forward barrier with %s parent" % pre["parent"])
+                probs.append("[weak] child still White after a weak forward barrier with %s parent" % pre["parent"])
             if not weak and c_post in WHITE:
                 probs.append("child still %s after a forward barrier with %s parent" % (c_post, pre["parent"]))
             if not weak and c_post == "B" and pre["Cnt"] == 1 and pre["C"] in WHITE:
@@ -430,12 +430,14 @@ def spec_sweep_one(row):
         want_drop = (col in ("W", "WW")) and live == 1
         want_free = col == "W"
         if len(dropped) > int(want_drop):
-            probs.append("value destructed %d time(s), specification says %s" % (len(dropped), int(want_drop)))
+            probs.append("%svalue destructed %d time(s), specification says %s" % (
+                "" if col == "B" else "[once] ", len(dropped), int(want_drop)))
         elif len(dropped) < int(want_drop):
             probs.append("[reclaim] condemned value not destructed by the sweep (specification says it is)")
         if out.kind == "return":
             if len(freed) > int(want_free):
-                probs.append("block released %d time(s), specification says %s" % (len(freed), int(want_free)))
+                probs.append("%sblock released %d time(s), specification says %s" % (
+                    "" if col == "B" else "[weak] ", len(freed), int(want_free)))
             elif len(freed) < int(want_free):
                 probs.append("[reclaim] condemned block not released by the sweep (specification says it is)")
             exp = []
@@ -452,7 +454,7 @@ def spec_sweep_one(row):
             if out.kind != "unwind" or not dropped:
                 probs.append("exit kind %s" % out.kind)
             if freed and not want_free:
-                probs.append("block released on unwind path")
+                probs.append("%sblock released on unwind path" % ("" if col == "B" else "[weak] "))
         # kept objects are reset to White / shells are marked not-live
         if col in ("WW", "B"):
             if post["colour"] != "W":
@@ -462,9 +464,9 @@ def spec_sweep_one(row):
                     probs.append("survivor left %s: the next cycle treats it as already marked and never traces its "
                                  "children" % post["colour"])
             if col == "WW" and post["live"] != 0:
-                probs.append("weakly kept object still flagged live after its value was (or had been) destructed")
+                probs.append("[once] weakly kept object still flagged live after its value was (or had been) destructed")
             if col == "B" and post["live"] != live:
-                probs.append("live flag of a marked object changed")
+                probs.append("[once] live flag of a marked object changed")
             if out.post["sweep_prev"] != x:
                 probs.append("sweep_prev not moved to the kept object")
             if out.post["all"] != row.init["all"]:
@@ -686,9 +688,10 @@ def spec_root_paths(row):
         # the root must be flagged on EVERY exit on which the callback may have mutated it (normal return and
         # unwinding out of the callback alike); whether the barrier runs before or after the callback is not behaviour
         if mutating and pre["phase"] == "Mark" and out.post["root_needs_trace"] != 1:
-            probs.append("%s: the arena is left (%s exit) with the root not flagged for re-tracing while marking: "
+            probs.append("%s%s: the arena is left (%s exit) with the root not flagged for re-tracing while marking: "
                          "pointers stored into the root by the callback are never traced" % (
-                             pre["path"], "unwinding" if out.kind == "unwind" else "normal"))
+                             "[unwind] " if out.kind == "unwind" else "", pre["path"],
+                             "unwinding" if out.kind == "unwind" else "normal"))
         if out.post["root_needs_trace"] == 0 and cbs[0][2] == 1:
             probs.append("root flag cleared after the callback")
     return probs
